@@ -24,7 +24,7 @@ ASSUMPTIONS = ['bounded time = at most 200 000 line/jump events of the interpret
                'terminating calls is reported as max_line_events)',
                'only Exception subclasses are injected into callbacks (KeyboardInterrupt/SystemExit are not "raising callbacks")',
                'a result that is a list *containing* error objects is not excluded by the statement',
-               'numbers in the sweep are <= 1000 in magnitude (C-level blow-ups such as 9^999999999 are out of bound)',
+               'the typed pool of the function sweep holds numbers <= 1000 in magnitude; huge arguments (1e9 .. 1e308) and huge integer powers are the subject of c01.blowups, where a 3 s wall-clock alarm stands in for the step budget',
                'a host list that contains itself is out of bound (flattening it cannot terminate); lists nested 3000 deep are in']
 
 
@@ -626,6 +626,102 @@ class Actions(Sub):
 
 
 
+HUGE = [10 ** 9, 999999999999, -10 ** 9, 1e308, 2 ** 70, 0.5, 2, 'abc']
+HUGE_LITERALS = ['9^999999999', '7*(9^99999999)', '2^1024', '99^999', '2^999999999^2', '10^400', '1/(9^99999999)', '(2^1023)*2',
+                 '999999999^999999999', '1^999999999', '0^999999999', 'SUM(9^999999999,1)', '-9^99999999', '9^99999999&"a"',
+                 '9^99999999=9^99999999', 'IFERROR(9^999999999,1)']
+
+
+class Blowups(Sub):
+    name = 'c01.blowups'
+    rule = ('each documented function x arity 1..3 x every argument tuple over {1e9, 1e12-1, -1e9, 1e308, 2^70, 0.5, 2, "abc"} that '
+            'holds at least one huge number (variables), and 16 literal forms with huge integer powers: a well-formed record '
+            'within the step budget AND within a 3 s wall-clock alarm, under an address-space limit of 4 GiB - an exact '
+            'integer power, a factorial, 10**digits or a padding to 10^9 places stalls below the Python level and executes no '
+            'line; non-trivial = all')
+    min_cases = 300
+    min_nontrivial = 10000
+    ALARM = 3
+
+    def cases(self, tier, unit):
+        names = documented(None)
+        for ni in range(len(names)):
+            for ar in (1, 2, 3):
+                yield ['fn', ni, ar]
+        for t in HUGE_LITERALS:
+            yield ['lit', t]
+
+    def guarded(self, env, p, text):
+        import signal
+
+        def onalarm(signum, frame):
+            raise WallTimeout()
+        old = signal.signal(signal.SIGALRM, onalarm)
+        signal.alarm(self.ALARM)
+        try:
+            try:
+                prob, raw = run_parse(env, p, text)
+            except WallTimeout:
+                prob = ('parse did not return within %d s of wall-clock time (normal: < 10 ms): a computation below the '
+                        'Python level that grows with the VALUE of an argument' % self.ALARM)
+        finally:
+            signal.alarm(0)
+            signal.signal(signal.SIGALRM, old)
+        return prob
+
+    def check(self, env, case):
+        import resource
+        if not getattr(env, '_c01_rlimit', False):
+            env._c01_rlimit = True
+            try:
+                resource.setrlimit(resource.RLIMIT_AS, (4 << 30, 4 << 30))     # this worker only evaluates this sub-check
+            except (ValueError, OSError):
+                pass
+        if getattr(env, '_c01_stalls', 0) >= 3:
+            env.note('skipped: three stalls already reported by this worker')
+            return None
+        if case[0] == 'lit':
+            env.nt()
+            prob = self.guarded(env, shared_parser(env), case[1])
+            if prob:
+                env._c01_stalls = getattr(env, '_c01_stalls', 0) + ('wall-clock' in prob)
+                return fail('parse(%r): %s' % (case[1], prob), None, None)
+            return None
+        if case[0] == 'one':
+            _, name, vals = case
+            return self.one(env, name, vals)
+        _, ni, ar = case
+        name = documented(env)[ni]
+        out = []
+        for vals in itertools.product(HUGE, repeat=ar):
+            if not any(isinstance(v, (int, float)) and abs(v) >= 1e9 for v in vals):
+                continue
+            f = self.one(env, name, list(vals))
+            if f:
+                out.append(f)
+                if len(out) >= 2:
+                    break
+        return out
+
+    def one(self, env, name, vals):
+        cache = env.__dict__.setdefault('_c01blp', {})
+        p = cache.get(len(vals))
+        if p is None:
+            p = cache[len(vals)] = env.new_parser()
+        argn = ['xa', 'xb', 'xc'][:len(vals)]
+        for n, v in zip(argn, vals):
+            p.set_variable(n, v)
+        text = '%s(%s)' % (name, ','.join(argn))
+        env.nt()
+        prob = self.guarded(env, p, text)
+        if prob:
+            env._c01_stalls = getattr(env, '_c01_stalls', 0) + ('wall-clock' in prob)
+            return fail('%s with %s: %s' % (text, ', '.join('%s=%r' % nv for nv in zip(argn, vals)), prob), None, None,
+                        case=['one', name, list(vals)])
+        return None
+
+
+
 def corpus():
     from .c05 import HAND, SEP
     out = []
@@ -803,4 +899,4 @@ class Deep(Sub):
         return None
 
 
-SUBS = [Soups(), CodePoints(), Functions(), Faults(), Actions(), Truncations(), Repetition(), Deep()]
+SUBS = [Soups(), CodePoints(), Functions(), Blowups(), Faults(), Actions(), Truncations(), Repetition(), Deep()]
